@@ -280,7 +280,7 @@ def real_part_word(rng, enz, kind, up, down, tries=200):
 # ---------------------------------------------------------------- patterns
 def tokens(pat):
     """DNA regex syntax -> list of ('cls', c) | ('star', c, greedy) | ('open',) | ('close',).
-    Equivalent spellings are normalised: `X+` = `X X*`, `X+?` = `X X*?`, `X{n}` = n times `X`."""
+    Equivalent spellings are normalised: `X+` = `X X*`, `X+?` = `X X*?`, `X{n}` = n times `X`, `X{m,}` = m times `X` then `X*`."""
     out = []
     i = 0
     while i < len(pat):
@@ -303,6 +303,13 @@ def tokens(pat):
         elif pat[i + 1:i + 2] == "+":
             out += [("cls", c), ("star", c, True)]
             i += 2
+        elif pat[i + 1:i + 2] == "{" and "}" in pat[i + 2:] and pat[i + 2:pat.index("}", i + 2)].endswith(",") \
+                and pat[i + 2:pat.index("}", i + 2)][:-1].isdigit():
+            # `X{m,}` = m times `X` then `X*` (lazy with a trailing `?`)
+            j = pat.index("}", i + 2)
+            lazy = pat[j + 1:j + 2] == "?"
+            out += [("cls", c)] * int(pat[i + 2:j - 1]) + [("star", c, not lazy)]
+            i = j + (2 if lazy else 1)
         elif pat[i + 1:i + 2] == "{" and "}" in pat[i + 2:] and pat[i + 2:pat.index("}", i + 2)].isdigit():
             j = pat.index("}", i + 2)
             out += [("cls", c)] * int(pat[i + 2:j])
@@ -311,6 +318,22 @@ def tokens(pat):
             out.append(("cls", c))
             i += 1
     return out
+
+
+def canon_pat(pat):
+    """the pattern in the one spelling the model's protocol reads (letters, `X*`, `X*?`, groups): equivalent
+    spellings of a structure (`N{4}`, `N+`) are not differences"""
+    out = []
+    for t in tokens(pat):
+        if t[0] == "open":
+            out.append("(")
+        elif t[0] == "close":
+            out.append(")")
+        elif t[0] == "cls":
+            out.append(t[1])
+        else:
+            out.append(t[1] + ("*" if t[2] else "*?"))
+    return "".join(out)
 
 
 def instantiate(rng, pat, runlen=None, forbid=()):
